@@ -454,6 +454,7 @@ func TestVerifChannelExec(t *testing.T) {
 		}
 		pres := map[[32]byte][32]byte{}
 		lastPre := map[string][32]byte{} // per party+amount, for duplicates
+		ndup := 0
 		npre := 0
 
 		out.Emit(vLine{vEv: vEv{A: "Reset", P: "A"}, Type: tname, Opener: opener, File: filepath.Base(f),
@@ -484,9 +485,16 @@ func TestVerifChannelExec(t *testing.T) {
 			switch e.A {
 			case "Add":
 				var pre [32]byte
+				expiry := uint32(500)
 				key := fmt.Sprintf("%s/%d", e.P, e.X)
 				if lp, ok := lastPre[key]; ok && e.Y == 1 {
-					pre = lp // equal hash/amount/expiry duplicate
+					// equal-hash duplicate: alternately fully identical and with
+					// a different CLTV expiry (BIP69+CLTV tie-break in the sort)
+					pre = lp
+					ndup++
+					if ndup%2 == 1 {
+						expiry = 509
+					}
 				} else {
 					npre++
 					pre[0], pre[1], pre[2] = byte(npre), byte(npre>>8), 0x5a
@@ -496,7 +504,7 @@ func TestVerifChannelExec(t *testing.T) {
 				pres[h] = pre
 				htlc := &lnwire.UpdateAddHTLC{
 					ID: me.lc.updateLogs.Local.htlcCounter, PaymentHash: h,
-					Amount: lnwire.MilliSatoshi(e.X), Expiry: 500,
+					Amount: lnwire.MilliSatoshi(e.X), Expiry: expiry,
 				}
 				_, err = me.lc.AddHTLC(htlc, nil)
 				if err == nil {
